@@ -208,6 +208,38 @@ def exec_producer_path(case):
             if producer._partition("t", q, b"k", b"v", b"k", b"v") != q:
                 out.fail("java_equal", "producer_path_explicit_partition_changed", {"n": n, "partition": q})
         producer._closed = True      # silences the "Unclosed AIOKafkaProducer" warning of __del__
+        # ---- the same through send() itself, with a key serializer: what is hashed are the key bytes on the wire
+        kind = case.get("ser")
+        ser = {None: None, "prefix": lambda k: None if k is None else b"\xc3\xa9/" + k,
+               "utf8": lambda k: None if k is None else k.encode("utf-8")}[kind]
+        p2 = AIOKafkaProducer(bootstrap_servers="127.0.0.1:1", key_serializer=ser)
+        p2._metadata.update_metadata(MetadataResponse_v0([(i, "127.0.0.1", 9092 + i) for i in nodes], [(0, "t", parts)]))
+        sent = []
+
+        async def no_wait(topic):
+            return None
+
+        async def add_message(tp, key, value, timeout, timestamp_ms=None, headers=[]):
+            sent.append((tp, key))
+            return asyncio.get_running_loop().create_future()
+        p2.client._wait_on_metadata = no_wait
+        p2._message_accumulator.add_message = add_message
+        for key in case["keys"]:
+            user_key = key.decode("latin-1") if kind == "utf8" else key
+            wire = ser(user_key) if ser else key
+            del sent[:]
+            try:
+                await p2.send("t", b"v", key=user_key)
+            except Exception as e:
+                out.fail("java_equal", "send_path_raises", {"key": key, "serializer": kind, "error": repr(e)})
+                continue
+            if len(sent) != 1 or sent[0][1] != wire:
+                out.fail("java_equal", "send_path_key_bytes", {"key": key, "serializer": kind, "queued": sent})
+            elif sent[0][0].partition != java_partition(wire, n):
+                out.fail("java_equal", "send_path_partition", {"key": key, "serializer": kind, "wire_key": wire, "n": n,
+                                                               "got": sent[0][0].partition, "java": java_partition(wire, n)})
+        out.label("send_path_serializer_%s" % kind)
+        p2._closed = True
 
     loop = asyncio.new_event_loop()
     try:
@@ -230,6 +262,7 @@ def _strat_producer_path():
         "calls": st.integers(0, 8),
         "rng_seed": st.integers(0, 2 ** 32),
         "explicit": st.one_of(st.none(), st.integers(0, 500)),
+        "ser": st.sampled_from([None, "prefix", "utf8"]),
     })
 
 
